@@ -242,6 +242,27 @@ def w_little(task):
     return acc
 
 
+def w_check_interleaved(task):
+    """codes that work on words of the same length share helpers (syndrome computation): the same word goes through both, in both orders"""
+    a, b, lo, hi = task
+    n = gf2.CODES[a][0]
+    acc = Acc()
+    for w in range(lo, hi):
+        for order in ((a, b, a), (b, a, b)):
+            for name in order:
+                try:
+                    got = bool(LIB[name].check(int2ba(w, n)))
+                except Exception as e:  # noqa: BLE001
+                    acc.violation("exception_check:" + exc_sig(e), {"code": name, "word": format(w, f"0{n}b"), "order": list(order)}, repr(e))
+                    continue
+                if got != (w in CODESETS[name]):
+                    acc.violation("verdict_differs_after_the_same_word_went_through_another_code:" + ("accepts_non_codeword" if got else "rejects_codeword"),
+                                  {"code": name, "word": format(w, f"0{n}b"), "order": list(order)},
+                                  "checker verdict differs from codeword membership when the same word was checked by the other code of that length just before")
+        acc.case(nontrivial=True, calls=6, outcome="interleaved", sample={"codes": [a, b], "word": format(w, f"0{n}b")} if w == lo == 0 else None)
+    return acc
+
+
 CODESETS = {}
 
 
@@ -315,6 +336,20 @@ def run(only=None):
         if accepted[name] != 1 << k:
             s.violation("accepted_count", {"code": name, "accepted": accepted[name], "expected": 1 << k})
     s.extra["accepted_words"] = accepted
+    s.done()
+
+    # 2b. the same word through the codes of equal length
+    same_len = [(a, b) for i, a in enumerate(LIB) for b in list(LIB)[i + 1:] if gf2.CODES[a][0] == gf2.CODES[b][0]]
+    s = rep.sub("same_word_through_codes_of_equal_length",
+                f"code pairs of equal word length {same_len}: all 2^n words checked by one code, the other, the first again (both orders): every verdict equals membership "
+                "in that code (a helper cache keyed by the word alone shows here)")
+    tasks = []
+    for a, b in same_len:
+        n = gf2.CODES[a][0]
+        tasks += [(a, b, lo, hi) for lo, hi in par.chunks(1 << n, 64)]
+    s.declared = sum(1 << gf2.CODES[a][0] for a, _ in same_len)
+    for acc in par.pmap(w_check_interleaved, tasks, nw):
+        s.merge(acc)
     s.done()
 
     # 3. correction: all single errors on all codewords; all double errors on (16,11,4)
